@@ -536,6 +536,13 @@ func (vc *VC) verifyRun(fn *ssa.Function, fc *FuncContract, key, caseName string
 			if po.Result == "unsat" {
 				infeasible[idxs[k]] = true
 				rep.Infeasible++
+				// a return path refuted under the scenario's preconditions is a discharged obligation
+				kind := "path-infeasible"
+				if outs[idxs[k]].Panic {
+					kind = "panic-path-infeasible"
+				}
+				vc.trivial = append(vc.trivial, &Obligation{Func: vc.curFunc, Kind: kind, Label: po.Label, Mode: vc.mode.Name, Props: vc.curProps,
+					Name: fmt.Sprintf("%s#%s:%s", vc.curFunc, kind, po.Label), Result: "unsat", Solver: po.Solver, vc: vc, Goal: TFalse()})
 			}
 		}
 	}
